@@ -203,6 +203,40 @@ def install():
     _installed = True
 
 
+class StepCapExceeded(BaseException):
+    """Raised from the LINE monitor when an operation exceeds its step budget (C11 oracle 4)."""
+
+
+STEPS = {"n": 0, "cap": None}
+_TOOL = 4
+
+
+def _on_line(code, line):
+    STEPS["n"] += 1
+    cap = STEPS["cap"]
+    if cap is not None and STEPS["n"] > cap:
+        STEPS["cap"] = None  # raise once
+        raise StepCapExceeded(f"more than {cap} line events")
+
+
+def steps_start(cap):
+    mon = sys.monitoring
+    STEPS["n"], STEPS["cap"] = 0, cap
+    try:
+        mon.use_tool_id(_TOOL, "vsim")
+    except ValueError:
+        pass
+    mon.register_callback(_TOOL, mon.events.LINE, _on_line)
+    mon.set_events(_TOOL, mon.events.LINE)
+
+
+def steps_stop() -> int:
+    mon = sys.monitoring
+    mon.set_events(_TOOL, 0)
+    STEPS["cap"] = None
+    return STEPS["n"]
+
+
 def repo_root() -> str:
     return _os.environ.get("VERIF_REPO", "/repo")
 
